@@ -467,7 +467,49 @@ func checkMariaFilter(c *Ctx, rule string) {
 				return false
 			}
 			fn := calleeOf(info, call)
-			return fn != nil && fn.Name() == "Maria"
+			if fn == nil {
+				return false
+			}
+			if fn.Name() == "Maria" {
+				return true
+			}
+			// a package-local predicate that can report true only after it established Maria()
+			g := c.FuncInfoOf(fn)
+			if g == nil || g.Decl.Body == nil || g.Pkg != fi.Pkg {
+				return false
+			}
+			sig := fn.Type().(*types.Signature)
+			if sig.Results().Len() != 1 {
+				return false
+			}
+			if b, ok := sig.Results().At(0).Type().Underlying().(*types.Basic); !ok || b.Kind() != types.Bool {
+				return false
+			}
+			ginfo := g.Info()
+			gf := newFlow(ginfo, g.Decl.Body)
+			all, n := true, 0
+			for _, pt := range gf.find(isReturn) {
+				r := pt.b.Nodes[pt.i].(*ast.ReturnStmt)
+				if len(r.Results) != 1 {
+					all = false
+					continue
+				}
+				if tv := ginfo.Types[r.Results[0]]; tv.Value != nil && tv.Value.String() == "false" {
+					continue
+				}
+				n++
+				if !gf.allPathsImply(r, func(x ast.Expr, v bool) bool {
+					c2, ok := ast.Unparen(x).(*ast.CallExpr)
+					if !ok || !v {
+						return false
+					}
+					f2 := calleeOf(ginfo, c2)
+					return f2 != nil && f2.Name() == "Maria"
+				}) {
+					all = false
+				}
+			}
+			return all && n > 0
 		}
 		var starts []point
 		for _, b := range f.G.Blocks {
@@ -1384,6 +1426,39 @@ func checkOwnDroppedColumns(c *Ctx, rule string) {
 			})
 		}
 		k := 0
+		// the set handed to a package-local predicate together with a column / part list
+		ast.Inspect(fi.Decl.Body, func(m ast.Node) bool {
+			call, ok := m.(*ast.CallExpr)
+			if !ok {
+				return true
+			}
+			fn := calleeOf(info, call)
+			if fn == nil || fn.Pkg() == nil || fn.Pkg().Path() != pp {
+				return true
+			}
+			var setArg *ast.Ident
+			for _, a := range call.Args {
+				if id, ok := ast.Unparen(a).(*ast.Ident); ok && sets[info.ObjectOf(id)] {
+					setArg = id
+				}
+			}
+			if setArg == nil {
+				return true
+			}
+			for _, a := range call.Args {
+				if a == ast.Expr(setArg) {
+					continue
+				}
+				if _, isSlice := info.TypeOf(a).Underlying().(*types.Slice); !isSlice {
+					continue
+				}
+				k++
+				n++
+				c.funcs[fi.Name] = true
+				c.Check(rule, fmt.Sprintf("%s|lookup %d in %s", fi.Name, k, setArg.Name), call.Pos(), !mentionsForeign(a), "%s looks up %s, columns of another table, in the set of columns dropped from the table being modified: a name coincidence withholds the DROP CONSTRAINT of a foreign key whose own columns stay, and the referenced table is dropped while the key still points at it", fi.Name, types.ExprString(a))
+			}
+			return true
+		})
 		ast.Inspect(fi.Decl.Body, func(m ast.Node) bool {
 			ix, ok := m.(*ast.IndexExpr)
 			if !ok {
@@ -1401,8 +1476,8 @@ func checkOwnDroppedColumns(c *Ctx, rule string) {
 			return true
 		})
 	}
-	if n < 4 {
-		c.Unresolved(rule, "lookups in the dropped-column sets of skipAutoChanges (fewer than 4)")
+	if n < 3 {
+		c.Unresolved(rule, "lookups in the dropped-column sets of skipAutoChanges (fewer than 3)")
 	}
 }
 
@@ -1434,19 +1509,31 @@ func checkStableCoarseSort(c *Ctx, rule string) {
 				default:
 					return true
 				}
-				var lit *ast.FuncLit
+				var cmpBody ast.Node
 				for _, a := range call.Args {
 					if fl, ok := a.(*ast.FuncLit); ok {
-						lit = fl
+						cmpBody = fl.Body
 					}
 				}
-				if lit == nil {
+				if cmpBody == nil && (fn.Name() == "Stable" || fn.Name() == "Sort") && len(call.Args) == 1 {
+					// sort.Interface on a named type: the comparator is its Less method
+					if nt := namedOf(info.TypeOf(call.Args[0])); nt != nil {
+						for i := 0; i < nt.NumMethods(); i++ {
+							if m := nt.Method(i); m.Name() == "Less" {
+								if g := c.FuncInfoOf(m); g != nil && g.Decl.Body != nil && g.Pkg == fi.Pkg {
+									cmpBody = g.Decl.Body
+								}
+							}
+						}
+					}
+				}
+				if cmpBody == nil {
 					return true
 				}
 				// the classification calls in the comparator
 				var cls []*types.Func
 				other := false
-				ast.Inspect(lit.Body, func(k ast.Node) bool {
+				ast.Inspect(cmpBody, func(k ast.Node) bool {
 					switch x := k.(type) {
 					case *ast.CallExpr:
 						g := calleeOf(info, x)
@@ -1992,32 +2079,43 @@ func checkLastCheckpoint(c *Ctx, rule string) {
 	if fi == nil {
 		return
 	}
-	info := fi.Info()
 	last, first := false, ""
-	ast.Inspect(fi.Decl.Body, func(m ast.Node) bool {
-		switch x := m.(type) {
-		case *ast.IndexExpr:
-			if _, isSlice := info.TypeOf(x.X).Underlying().(*types.Slice); isSlice {
-				if cn, k, ok := lenMinusConst(info, fi.Decl.Body, x.Index, types.ExprString(x.X), 0); ok {
-					switch {
-					case cn == 1 && k == -1:
-						last = true
-					case cn == 0:
-						first = types.ExprString(x)
-					}
-				}
-			}
-		case *ast.CallExpr:
-			fn := calleeOf(info, x)
-			if fn != nil && fn.Pkg() != nil && fn.Pkg().Path() == "slices" && (fn.Name() == "IndexFunc" || fn.Name() == "Index") {
-				first = types.ExprString(x.Fun) + "(…) returns the first match"
-			}
-			if fn != nil && strings.Contains(fn.Name(), "Last") && fn.Name() != "FilesFromLastCheckpoint" {
-				last = true
+	scopes := []*FuncInfo{fi}
+	for _, call := range callsIn(fi.Decl.Body, true) {
+		if fn := calleeOf(fi.Info(), call); fn != nil && fn.Pkg() != nil && fn.Pkg().Path() == pMigrate && fn != fi.Obj {
+			if g := c.FuncInfoOf(fn); g != nil && g.Decl.Body != nil && g.Decl.Recv == nil {
+				scopes = append(scopes, g)
 			}
 		}
-		return true
-	})
+	}
+	for _, sc := range scopes {
+		fi := sc
+		info := fi.Info()
+		ast.Inspect(fi.Decl.Body, func(m ast.Node) bool {
+			switch x := m.(type) {
+			case *ast.IndexExpr:
+				if _, isSlice := info.TypeOf(x.X).Underlying().(*types.Slice); isSlice {
+					if cn, k, ok := lenMinusConst(info, fi.Decl.Body, x.Index, types.ExprString(x.X), 0); ok {
+						switch {
+						case cn == 1 && k == -1:
+							last = true
+						case cn == 0:
+							first = types.ExprString(x)
+						}
+					}
+				}
+			case *ast.CallExpr:
+				fn := calleeOf(info, x)
+				if fn != nil && fn.Pkg() != nil && fn.Pkg().Path() == "slices" && (fn.Name() == "IndexFunc" || fn.Name() == "Index") {
+					first = types.ExprString(x.Fun) + "(…) returns the first match"
+				}
+				if fn != nil && strings.Contains(fn.Name(), "Last") && fn.Name() != "FilesFromLastCheckpoint" && len(scopes) == 1 {
+					last = true
+				}
+			}
+			return true
+		})
+	}
 	c.funcs[fi.Name] = true
 	c.Check(rule, "migrate.FilesFromLastCheckpoint|starts at the last checkpoint", fi.Decl.Pos(), last && first == "", "FilesFromLastCheckpoint does not select the last checkpoint (last-element selection found: %v; first-match selection: %q): with two checkpoints a fresh database replays the first checkpoint and the files after it and then the second checkpoint, which contains them again", last, first)
 }
@@ -2637,9 +2735,9 @@ func checkSnapshotAccepts(c *Ctx, rule string) {
 					return false
 				}
 			}
-			target := func(nd ast.Node) bool { return nd == ast.Node(ret) }
-			_, reachable := f.reachEx([]point{f.entry()}, nil, target, clean)
-			c.Check(rule, fmt.Sprintf("%s|success return %d (%s counted)", fi.Name, k, kind), ret.Pos(), !reachable, "%s returns a restore function (accepts the dev database as clean) on a path that never established the number of %s it holds: a database with other schemas / tables is taken for empty and wiped by the restore", fi.Name, strings.ToLower(kind))
+			_ = clean
+			established := f.allPathsImply(ret, func(e ast.Expr, val bool) bool { return countFact(e, val, 0) })
+			c.Check(rule, fmt.Sprintf("%s|success return %d (%s counted)", fi.Name, k, kind), ret.Pos(), established, "%s returns a restore function (accepts the dev database as clean) on a path that never established the number of %s it holds: a database with other schemas / tables is taken for empty and wiped by the restore", fi.Name, strings.ToLower(kind))
 		}
 	}
 	if n < 3 {
@@ -2791,23 +2889,38 @@ func checkTimePrecision(c *Ctx, rule string) {
 		n++
 		c.funcs[fi.Name] = true
 		txt := types.ExprString(st)
-		positive := false
-		for _, f := range enclosingFacts(pm, st) {
-			be, ok := ast.Unparen(f.expr).(*ast.BinaryExpr)
-			if !ok || types.ExprString(ast.Unparen(be.X)) != txt {
-				continue
+		// the dereferenced expression may be spelled through an alias (p := t.Precision): compare by "is a precision"
+		nonZero := func(e ast.Expr, val bool) bool {
+			be, ok := ast.Unparen(e).(*ast.BinaryExpr)
+			if !ok {
+				return false
+			}
+			sx, ok := ast.Unparen(be.X).(*ast.StarExpr)
+			if !ok || !isPrec(sx.X) {
+				return false
 			}
 			tv := info.Types[be.Y]
 			if tv.Value == nil {
-				continue
+				return false
 			}
 			v := tv.Value.String()
 			switch {
-			case be.Op == token.GTR && v == "0" && f.val, be.Op == token.NEQ && v == "0" && f.val, be.Op == token.GEQ && v == "1" && f.val,
-				be.Op == token.EQL && v == "0" && !f.val, be.Op == token.LEQ && v == "0" && !f.val, be.Op == token.LSS && v == "1" && !f.val:
+			case be.Op == token.GTR && v == "0" && val, be.Op == token.NEQ && v == "0" && val, be.Op == token.GEQ && v == "1" && val,
+				be.Op == token.EQL && v == "0" && !val, be.Op == token.LEQ && v == "0" && !val, be.Op == token.LSS && v == "1" && !val:
+				return true
+			}
+			return false
+		}
+		positive := false
+		for _, f := range enclosingFacts(pm, st) {
+			if nonZero(f.expr, f.val) {
 				positive = true
 			}
 		}
+		if !positive {
+			positive = newFlow(info, fi.Decl.Body).allPathsImply(st, nonZero)
+		}
+		_ = txt
 		c.Check(rule, fmt.Sprintf("mysql.FormatType|precision print %d under a non-zero guard", n), st.Pos(), positive, "mysql.FormatType prints the TimeType precision %s without knowing that it is non-zero: a column declared datetime(0) is formatted `datetime(0)` while the same column re-read from its HCL (the zero attribute is dropped) is formatted `datetime`, so the differ reports a change in both directions", txt)
 		return true
 	})
@@ -2996,13 +3109,7 @@ func checkChangePerStmt(c *Ctx, rule string) {
 			return hit
 		}
 	}
-	var starts []point
-	for _, b := range f.G.Blocks {
-		if b.Live && b.Kind == cfg.KindRangeBody && b.Stmt == ast.Stmt(st.loop) {
-			starts = append(starts, point{b, 0})
-		}
-	}
-	next := func(b *cfg.Block) bool { return b.Kind == cfg.KindRangeLoop && b.Stmt == ast.Stmt(st.loop) }
+	starts, next := loopBlocks(f, st.loop)
 	skipped := f.reachBlockEdges(starts, through, next, nil)
 	c.Check(rule, fi.Name+"|every executed statement gets its Change", st.loop.Pos(), !skipped, "%s can move on to the next statement without appending a Change for the current one: the positions the analyzers rely on (neighbouring statements of the SQLite table rebuild) no longer line up", fi.Name)
 }
@@ -3315,7 +3422,19 @@ func checkReverseRestoresGuarded(c *Ctx, rule string) {
 				var at token.Pos = ifs.Pos()
 				ast.Inspect(ifs.Body, func(q ast.Node) bool {
 					call, ok := q.(*ast.CallExpr)
-					if !ok || !onBuilder(info, call) {
+					if !ok {
+						return true
+					}
+					// a builder write, or a package-local helper that is handed a builder
+					writes := onBuilder(info, call)
+					if !writes {
+						for _, a := range call.Args {
+							if nt := namedOf(derefType(info.TypeOf(a))); nt != nil && nt.Obj().Name() == "Builder" && nt.Obj().Pkg() != nil && nt.Obj().Pkg().Path() == pSqlx {
+								writes = true
+							}
+						}
+					}
+					if !writes {
 						return true
 					}
 					for _, a := range call.Args {
@@ -3750,6 +3869,71 @@ func checkTypeStmtIdent(c *Ctx, rule string) {
 				if se, ok := next.Fun.(*ast.SelectorExpr); ok && se.Sel.Name == "Ident" {
 					good = false
 				}
+				// the object is a string parameter: every caller in the package must pass an ident-helper result
+				if id, ok := ast.Unparen(a).(*ast.Ident); ok && !good {
+					pidx, k2 := -1, 0
+					for _, fld := range fi.Decl.Type.Params.List {
+						for _, nm := range fld.Names {
+							if info.ObjectOf(nm) == info.ObjectOf(id) {
+								pidx = k2
+							}
+							k2++
+						}
+					}
+					if pidx >= 0 {
+						calls, okc := 0, 0
+						c.AllFuncs(false, func(g *FuncInfo) {
+							if g.Pkg != fi.Pkg {
+								return
+							}
+							ginfo := g.Info()
+							for _, gc := range callsIn(g.Decl.Body, true) {
+								if calleeOf(ginfo, gc) != fi.Obj || pidx >= len(gc.Args) {
+									continue
+								}
+								calls++
+								arg := gc.Args[pidx]
+								if isIdentHelper(ginfo, arg) {
+									okc++
+									continue
+								}
+								if aid, ok := ast.Unparen(arg).(*ast.Ident); ok {
+									obj := ginfo.ObjectOf(aid)
+									defs, gd := 0, 0
+									ast.Inspect(g.Decl.Body, func(q ast.Node) bool {
+										switch d := q.(type) {
+										case *ast.AssignStmt:
+											if len(d.Lhs) == len(d.Rhs) {
+												for i, l := range d.Lhs {
+													if lid, ok := l.(*ast.Ident); ok && ginfo.ObjectOf(lid) == obj {
+														defs++
+														if isIdentHelper(ginfo, d.Rhs[i]) {
+															gd++
+														}
+													}
+												}
+											}
+										case *ast.ValueSpec:
+											for i, nm := range d.Names {
+												if ginfo.ObjectOf(nm) == obj && i < len(d.Values) {
+													defs++
+													if isIdentHelper(ginfo, d.Values[i]) {
+														gd++
+													}
+												}
+											}
+										}
+										return true
+									})
+									if defs > 0 && defs == gd {
+										okc++
+									}
+								}
+							}
+						})
+						good = calls > 0 && calls == okc
+					}
+				}
 			}
 			c.Check(rule, fmt.Sprintf("%s|%s statement %d names the type through an ident helper", fi.Name, k, kf), call.Pos(), good, "%s builds a %q statement whose object is written by %s, not by a qualifier-aware identifier helper: with a requested schema qualifier the statement addresses the type in the connection's default schema while the tables using it are qualified", fi.Name, k, what)
 			return true
@@ -3900,7 +4084,7 @@ func checkPrefixUnconditional(c *Ctx, rule string) {
 // itself, or in a DevLoader helper method the loop calls once per statement.
 type lintStep struct {
 	caller  *FuncInfo
-	loop    *ast.RangeStmt
+	loop    ast.Stmt      // *ast.RangeStmt or *ast.ForStmt
 	scope   *FuncInfo     // function holding inspect / RealmDiff / append (caller or helper)
 	call    *ast.CallExpr // the helper call in the loop (nil when scope == caller)
 	stmtObj types.Object  // the statement variable inside scope
@@ -3908,16 +4092,41 @@ type lintStep struct {
 	curObj  types.Object  // the threaded state variable of the caller
 }
 
+func loopBodyOf(l ast.Stmt) *ast.BlockStmt {
+	switch x := l.(type) {
+	case *ast.RangeStmt:
+		return x.Body
+	case *ast.ForStmt:
+		return x.Body
+	}
+	return nil
+}
+
+// loopBlocks returns the CFG entry points of the loop body and a predicate for "the next iteration begins".
+func loopBlocks(f *Flow, l ast.Stmt) ([]point, func(*cfg.Block) bool) {
+	var starts []point
+	for _, b := range f.G.Blocks {
+		if b.Live && b.Stmt == l && (b.Kind == cfg.KindRangeBody || b.Kind == cfg.KindForBody) {
+			starts = append(starts, point{b, 0})
+		}
+	}
+	next := func(b *cfg.Block) bool {
+		return b.Stmt == l && (b.Kind == cfg.KindRangeLoop || b.Kind == cfg.KindForPost || b.Kind == cfg.KindForLoop)
+	}
+	return starts, next
+}
+
 func findLintStep(c *Ctx, fi *FuncInfo) *lintStep {
 	info := fi.Info()
 	var st *lintStep
 	ast.Inspect(fi.Decl.Body, func(m ast.Node) bool {
-		loop, ok := m.(*ast.RangeStmt)
-		if !ok || st != nil {
+		loop, ok := m.(ast.Stmt)
+		if !ok || st != nil || loopBodyOf(loop) == nil {
 			return st == nil
 		}
+		body := loopBodyOf(loop)
 		execs := false
-		for _, call := range callsIn(loop.Body, false) {
+		for _, call := range callsIn(body, false) {
 			if fn := calleeOf(info, call); fn != nil && c.mayReach(fn, func(g *types.Func) bool { return g.Name() == "ExecContext" }, 2) {
 				execs = true
 			}
@@ -3926,11 +4135,29 @@ func findLintStep(c *Ctx, fi *FuncInfo) *lintStep {
 			return true
 		}
 		st = &lintStep{caller: fi, loop: loop, scope: fi}
-		if sv, ok := loop.Value.(*ast.Ident); ok {
-			st.stmtObj = info.ObjectOf(sv)
+		// the statement variable: the range value, or a local assigned from an element of the ranged slice
+		var stmtVar types.Object
+		if rs, ok := loop.(*ast.RangeStmt); ok {
+			if sv, ok := rs.Value.(*ast.Ident); ok {
+				stmtVar = info.ObjectOf(sv)
+			}
 		}
+		if stmtVar == nil {
+			for _, bs := range body.List {
+				as, ok := bs.(*ast.AssignStmt)
+				if !ok || len(as.Lhs) != 1 || len(as.Rhs) != 1 {
+					continue
+				}
+				if _, isIdx := ast.Unparen(as.Rhs[0]).(*ast.IndexExpr); isIdx && typeIs(derefType(info.TypeOf(as.Lhs[0])), pMigrate, "Stmt") {
+					if id, ok := as.Lhs[0].(*ast.Ident); ok {
+						stmtVar = info.ObjectOf(id)
+					}
+				}
+			}
+		}
+		st.stmtObj = stmtVar
 		// a helper that performs the inspection
-		for _, call := range callsIn(loop.Body, false) {
+		for _, call := range callsIn(body, false) {
 			fn := calleeOf(info, call)
 			if fn == nil || funcIs(fn, pLint, "DevLoader", "inspect") {
 				continue
@@ -3964,7 +4191,7 @@ func findLintStep(c *Ctx, fi *FuncInfo) *lintStep {
 					continue
 				}
 				switch {
-				case loop.Value != nil && info.ObjectOf(id) == info.ObjectOf(loop.Value.(*ast.Ident)):
+				case stmtVar != nil && info.ObjectOf(id) == stmtVar:
 					st.stmtObj = g.Info().ObjectOf(ps[ai])
 				case typeIs(derefType(info.TypeOf(id)), pSchema, "Realm"):
 					st.prevObj = g.Info().ObjectOf(ps[ai])
@@ -4028,7 +4255,7 @@ func checkPerStatementStep(c *Ctx, fi *FuncInfo) {
 	// the Change carries this statement; the diff is between the state before and the inspected state; the state advances
 	stmtOK, diffOK, advOK := false, false, false
 	var nextObj, curObj types.Object
-	root := ast.Node(st.loop.Body)
+	root := ast.Node(loopBodyOf(st.loop))
 	if st.scope != fi {
 		root = st.scope.Decl.Body
 	}
